@@ -98,7 +98,8 @@ def _java_cmd(xmx="4g", xss=None, deque=False):
     for cand in ("/opt/veriftools/tla/CommunityModules-deps.jar", "/opt/veriftools/tla/CommunityModules.jar"):
         if os.path.exists(cand):
             cp += ":" + cand
-    cmd = ["java", "-XX:+UseParallelGC", "-Xmx" + xmx]
+    # tlc2.tool.impl.Tool.cdot: action composition (A \cdot B), used by Tms.tla's Consume
+    cmd = ["java", "-XX:+UseParallelGC", "-Dtlc2.tool.impl.Tool.cdot=true", "-Xmx" + xmx]
     if xss:
         cmd.append("-Xss" + xss)
     if deque:
